@@ -108,7 +108,7 @@ func TestVerifC01Decoder(t *testing.T) {
 	classLen := report.ParamInt("CLASSLEN", 5)
 	pairs := report.ParamInt("PAIRS", 0)
 	rep.Rule = fmt.Sprintf("E1: (a) every byte string of length 0..2 appended to 6 header templates (counts in {0,1,2,0xFFFF}); every string of length <=%d over a 13-symbol class alphabet "+
-		"{00,01,02,3F,40,80,C0,C1,FF,'a',0C,ptr-to-self,ptr-forward} at the question-name, RR-owner and RDATA-name positions; (b) around %d seed messages: every prefix, every single-byte substitution (pos x 256), "+
+		"{00,01,02,3F,40,80,C0,C1,FF,'a',0C,ptr-to-self,ptr-forward} at the question-name, RR-owner and RDATA-name positions; every 4-octet label / raw RDATA over {C0, pointer low bytes into itself, 00,01,3F,'a'} followed by a later name pointing at each of its offsets (pointer graphs hidden in opaque data); (b) around %d seed messages: every prefix, every single-byte substitution (pos x 256), "+
 		"every byte deletion/duplication, every compression pointer retargeted to every offset 0..len+1%s; also every string of length<=3 over the alphabet (and all 2-byte strings) through NameScanner/ToReadable/ParseReadable; "+
 		"distinct = distinct inputs; oracle = no panic, termination (10 s watchdog, re-run 5x), accepted messages re-pack (both modes and with limit 512) and re-decode",
 		classLen, len(c01Seeds()), map[bool]string{true: ", every pair of substitutions over the class alphabet", false: ""}[pairs > 0])
@@ -254,6 +254,32 @@ func TestVerifC01Decoder(t *testing.T) {
 		}
 	}
 	rec()
+
+	// (a3) pointer graphs hidden in opaque data: a first name whose single label holds every string of length 4 over
+	// {C0, low bytes pointing at each octet of that label, 00, 01, 3F, 'a'}, followed by a later name (second question,
+	// RR owner, CNAME RDATA) that is a pointer to each offset of that region
+	{
+		symsA3 := []byte{0xC0, 0x0C, 0x0D, 0x0E, 0x0F, 0x10, 0x11, 0x00, 0x01, 0x3F, 'a'}
+		var lab [4]byte
+		for v := 0; v < len(symsA3)*len(symsA3)*len(symsA3)*len(symsA3); v++ {
+			x := v
+			for i := range lab {
+				lab[i] = symsA3[x%len(symsA3)]
+				x /= len(symsA3)
+			}
+			for tgt := 12; tgt <= 18; tgt++ {
+				// two questions
+				b := []byte{0x12, 0x34, 0x01, 0x00, 0, 2, 0, 0, 0, 0, 0, 0, 4, lab[0], lab[1], lab[2], lab[3], 0, 0, 1, 0, 1, 0xC0, byte(tgt), 0, 1, 0, 1}
+				try(b)
+				// one question + one answer whose owner is the pointer
+				b2 := []byte{0x12, 0x34, 0x81, 0x80, 0, 1, 0, 1, 0, 0, 0, 0, 4, lab[0], lab[1], lab[2], lab[3], 0, 0, 1, 0, 1, 0xC0, byte(tgt), 0, 1, 0, 1, 0, 0, 0, 9, 0, 4, 1, 2, 3, 4}
+				try(b2)
+				// pointer inside CNAME RDATA, the opaque data is the RDATA of a preceding TXT-like record
+				b3 := []byte{0x12, 0x34, 0x81, 0x80, 0, 0, 0, 2, 0, 0, 0, 0, 0, 0, 16, 0, 1, 0, 0, 0, 9, 0, 4, lab[0], lab[1], lab[2], lab[3], 0, 0, 5, 0, 1, 0, 0, 0, 9, 0, 2, 0xC0, byte(tgt + 11)}
+				try(b3)
+			}
+		}
+	}
 
 	// (b) deviations around the seed corpus
 	class := []byte{0x00, 0x01, 0x3F, 0x40, 0x80, 0xC0, 0xFF, 0x0C}
